@@ -425,10 +425,79 @@ def oracle(recipe, geo, grid, geo1, bm, err, fail):
     return st
 
 
-def check_recipe(recipe, fail):
+def grid_snapshot(grid):
+    """everything of a t2grid that rectgeo reads, bit for bit (floats as hex)"""
+    hx_ = lambda v: None if v is None else float(v).hex()
+    blocks = [(b.name, hx_(b.volume), None if b.centre is None else tuple(hx_(v) for v in b.centre), bool(b.atmosphere),
+               b.rocktype.name if b.rocktype is not None else None, tuple(sorted(b.connection_name))) for b in grid.blocklist]
+    conns = [(tuple(b.name for b in c.block), int(c.direction), tuple(hx_(d) for d in c.distance), hx_(c.area), hx_(c.dircos))
+             for c in grid.connectionlist]
+    return (tuple(blocks), tuple(conns), tuple(grid.block.keys()), tuple(grid.connection.keys()))
+
+
+def snapshot_diff(a, b):
+    for part, (x, y) in zip(('blocks', 'connections', 'block dictionary', 'connection dictionary'), zip(a, b)):
+        if x != y:
+            if len(x) != len(y): return '%s: %d entries before, %d after' % (part, len(x), len(y))
+            for u, v in zip(x, y):
+                if u != v: return '%s: %r became %r' % (part, u, v)
+    return None
+
+
+def result_numbers(geo1, bm):
+    """the result of rectgeo as plain numbers / names (for comparing two calls)"""
+    return dict(nodes=[[float(v) for v in n.pos] for n in geo1.nodelist], node_names=[n.name for n in geo1.nodelist],
+                columns=[c.name for c in geo1.columnlist], surfaces=[float(c.surface) for c in geo1.columnlist],
+                num_layers=[int(c.num_layers) for c in geo1.columnlist],
+                layers=[[l.name, float(l.bottom), float(l.centre), float(l.top)] for l in geo1.layerlist],
+                angle=float(geo1.permeability_angle), atmosphere_type=int(geo1.atmosphere_type),
+                block_names=list(geo1.block_name_list), blockmap=sorted([k, v] for k, v in bm.items()))
+
+
+def same_numbers(a, b, rel=1e-12):
+    """structural equality; floats equal up to rel (NaN equals NaN); returns None or the path of the first difference"""
+    if isinstance(a, dict) and isinstance(b, dict):
+        if sorted(a) != sorted(b): return 'keys'
+        for k in a:
+            d = same_numbers(a[k], b[k], rel)
+            if d: return '%s/%s' % (k, d)
+        return None
+    if isinstance(a, (list, tuple)) and isinstance(b, (list, tuple)):
+        if len(a) != len(b): return 'length %d vs %d' % (len(a), len(b))
+        for i, (x, y) in enumerate(zip(a, b)):
+            d = same_numbers(x, y, rel)
+            if d: return '[%d]%s' % (i, '/' + d if not d.startswith('[') and not d.startswith('=') else d)
+        return None
+    if isinstance(a, float) or isinstance(b, float):
+        a, b = float(a), float(b)
+        if a != a or b != b: return None if (a != a and b != b) else '=%r vs %r' % (a, b)
+        return None if abs(a - b) <= rel * max(abs(a), abs(b), 1.0) else '=%r vs %r' % (a, b)
+    return None if a == b else '=%r vs %r' % (a, b)
+
+
+def reference_eval(recipe):
+    """rectgeo on the grid of a recipe, as plain data (run in a fresh interpreter by the history-independence clause)"""
     geo = build_geo(recipe)
     grid = build_grid(recipe, geo)
     geo1, bm, err = run_rectgeo(recipe, grid, geo)
+    return dict(err=None if err is None else err.split(':')[0], res=None if err is not None else result_numbers(geo1, bm))
+
+
+def check_recipe(recipe, fail):
+    geo = build_geo(recipe)
+    grid = build_grid(recipe, geo)
+    before = grid_snapshot(grid)
+    geo1, bm, err = run_rectgeo(recipe, grid, geo)
+    # --- rectgeo reads its grid: it leaves it unchanged ...
+    d = snapshot_diff(before, grid_snapshot(grid))
+    if d: fail('rectgeo:modifies-its-grid', 'after rectgeo the grid differs: ' + d[:300], 'the grid as it was (reconstructing a geometry "from the grid alone")')
+    # --- ... and is a function of the grid: a second call on the same grid returns the same geometry and block map
+    geo2, bm2, err2 = run_rectgeo(recipe, grid, geo)
+    if (err is None) != (err2 is None) or (err is not None and err.split(':')[0] != err2.split(':')[0]):
+        fail('rectgeo:second-call-on-same-grid-differs', 'first call: %s, second call: %s' % (err or 'a geometry', err2 or 'a geometry'), 'the same outcome')
+    elif err is None:
+        d = same_numbers(result_numbers(geo1, bm), result_numbers(geo2, bm2))
+        if d: fail('rectgeo:second-call-on-same-grid-differs', 'the second call differs at ' + d[:200], 'the same geometry and block map')
     return oracle(recipe, geo, grid, geo1, bm, err, fail), geo, grid, geo1, bm, err
 
 
@@ -438,6 +507,13 @@ def check_recipe(recipe, fail):
 def qs(x):
     n, d = float(x).as_integer_ratio()
     return '%d/%d' % (n, d)
+
+
+def dec(x):
+    """the decimal a double was written as (shortest repr), exactly: the model of the data file keeps decimals, and
+    doubles nearest to short decimals compare like the decimals"""
+    f = Fraction(repr(float(x)))
+    return '%d/%d' % (f.numerator, f.denominator)
 
 
 def hx(s):
@@ -480,7 +556,7 @@ def case_line(recipe, geo, grid):
          ';'.join(qs(v) for v in recipe['dx']), ';'.join(qs(v) for v in recipe['dy']), ';'.join(qs(v) for v in recipe['dz']),
          ';'.join(qs(v) for v in surf),
          str(recipe['convention']), ';'.join(hx(l.name) for l in geo.layerlist), ';'.join(hx(c.name) for c in geo.columnlist),
-         qs(kw.get('atmos_volume', 1.e25)), qs(kw['layer_snap']), str(kw['atmos_type']), str(kw['convention']),
+         (dec(kw.get('atmos_volume', 1.e25)) if recipe['kind'] == 'file' else qs(kw.get('atmos_volume', 1.e25))), qs(kw['layer_snap']), str(kw['atmos_type']), str(kw['convention']),
          ';'.join(hx(n) for n in rl), ';'.join(hx(n) for n in rc), cn,
          hx(origin_block_name(geo)) if recipe.get('origin_block') else '-']
     return '\t'.join(f)
@@ -505,17 +581,23 @@ def compare_model(recipe, geo, grid, geo1, bm, err, out):
     diffs = []
     if len(parts) < 3: return ['model output malformed: %r' % out[:200]]
     rot = bool(recipe.get('axis')) and recipe['axis'][:2] != [1, 0]
+    filed = recipe['kind'] == 'file'       # the model rounds every number as the data file does; the implementation then
+                                           # computes in doubles from the re-read decimals: results within 1e-9
     Ls = max([1.0] + [abs(float(v)) for n in geo.nodelist for v in n.pos])
     Zs = max([1.0] + [abs(float(l.bottom)) for l in geo.layerlist] + [abs(float(c.surface)) for c in geo.columnlist])
 
     def same(m, v, scale=0.0):
         """model rational m vs implementation float v"""
-        if not rot: return m == F(v)
+        if not rot and not filed: return m == F(v)
         v = float(v)
         if v != v: return False
         mf = m.numerator / m.denominator
         return abs(mf - v) <= 1e-9 * max(abs(mf), abs(v), scale)
 
+    if filed:
+        # the re-read grid: each number is the double nearest to the decimal the model computed
+        def same_fwd(m, v, scale=0.0): return (m.numerator / m.denominator) == float(v)
+    else: same_fwd = same
     # --- the forward map: rect_grid vs t2grid().fromgeo(mulgrid().rectangular(...))
     mb = [x.split(':') for x in parts[0].split(';')] if parts[0] else []
     ib = grid.blocklist
@@ -524,9 +606,9 @@ def compare_model(recipe, geo, grid, geo1, bm, err, out):
         diffs.append('forward: block names/order: model vs impl ' + first_diff(mnames, [b.name for b in ib]))
     else:
         for x, b in zip(mb, ib):
-            if not same(pq(x[1]), b.volume): diffs.append('forward: block %r volume: model %s impl %r' % (b.name, x[1], float(b.volume))); break
+            if not same_fwd(pq(x[1]), b.volume): diffs.append('forward: block %r volume: model %s impl %r' % (b.name, x[1], float(b.volume))); break
             if (x[2] == 'None') != (b.centre is None): diffs.append('forward: block %r centre: model %r impl %r' % (b.name, x[2], b.centre)); break
-            if b.centre is not None and not (same(pq(x[2]), b.centre[0], Ls) and same(pq(x[3]), b.centre[1], Ls) and pq(x[4]) == F(b.centre[2])):
+            if b.centre is not None and not (same_fwd(pq(x[2]), b.centre[0], Ls) and same_fwd(pq(x[3]), b.centre[1], Ls) and (same_fwd(pq(x[4]), b.centre[2]) if filed else pq(x[4]) == F(b.centre[2]))):
                 diffs.append('forward: block %r centre: model %r impl %r' % (b.name, [float(pq(v)) for v in x[2:5]], b.centre)); break
     mc_ = [x.split(':') for x in parts[1].split(';')] if parts[1] else []
     ic_ = grid.connectionlist
@@ -538,9 +620,11 @@ def compare_model(recipe, geo, grid, geo1, bm, err, out):
         for x, c in zip(mc_, ic_):
             if int(x[2]) != int(c.direction): diffs.append('forward: connection %r direction: model %s impl %r' % (tuple(b.name for b in c.block), x[2], c.direction)); break
             hz = int(x[2]) != 3
-            if not (same(pq(x[3]), c.distance[0], 1e-3 * Ls if hz else 0.0) and same(pq(x[4]), c.distance[1], 1e-3 * Ls if hz else 0.0)):
+            if not (same_fwd(pq(x[3]), c.distance[0], 1e-3 * Ls if hz else 0.0) and same_fwd(pq(x[4]), c.distance[1], 1e-3 * Ls if hz else 0.0)):
                 diffs.append('forward: connection %r distances: model %s,%s impl %r' % (tuple(b.name for b in c.block), x[3], x[4], [float(d) for d in c.distance])); break
-            if not same(pq(x[5]), c.area, 1e-3 * Ls * Zs if hz else 0.0): diffs.append('forward: connection %r area: model %s impl %r' % (tuple(b.name for b in c.block), x[5], float(c.area))); break
+            if not same_fwd(pq(x[5]), c.area, 1e-3 * Ls * Zs if hz else 0.0): diffs.append('forward: connection %r area: model %s impl %r' % (tuple(b.name for b in c.block), x[5], float(c.area))); break
+            mdc = float(pq(x[6])) / math.sqrt(float(pq(x[7])))          # the model carries dircos as numerator / sqrt(radicand)
+            if abs(mdc - float(c.dircos)) > (1e-7 if filed else 1e-9): diffs.append('forward: connection %r dircos: model %r impl %r' % (tuple(b.name for b in c.block), mdc, float(c.dircos))); break
     # --- rectgeo
     if parts[2].startswith('RAISE '):
         exn = parts[2][6:]
